@@ -230,6 +230,33 @@ let () = iter_lines (fun line ->
              Printf.printf "fromsave ok %d:%s hm:%s st:%s\n" (List.length secs) (md5 bs) (md5 bh) (hex_of_bytes st)
          | SErr -> print_string "fromsave err\n"
          | SPanic _ -> print_string "fromsave panic\n")
+    | "fromsavee" ->
+        (* fromsavee gs gb xpos zpos nbe (nt datahex ok idhex x y z type)* schunk : ChunkFromSave with block entities;
+           what v.Unmarshal(&tmp) and block.EntityTypes gave travels with the case *)
+        let gs = next_z c in let gb = next_z c in let xpos = next_z c in let zpos = next_z c in
+        let nbe = next_int c in
+        let ftab = Hashtbl.create 16 in let ttab = Hashtbl.create 16 in
+        let bes = times nbe (fun () ->
+          let nt = next_int c in let d = next c in let ok = next c in let id = next c in
+          let x = next_z c in let y = next_z c in let z = next_z c in let ty = next_z c in
+          if ok = "1" then Hashtbl.replace ftab (string_of_int nt ^ "|" ^ d) (bytes_of_hex id, x, y, z);
+          Hashtbl.replace ttab id ty;
+          (n_of_int nt, bytes_of_hex d)) in
+        let be_fields (nt, d) =
+          match Hashtbl.find_opt ftab (dec_of_n nt ^ "|" ^ hex_of_bytes d) with
+          | Some (id, x, y, z) -> Some (((id, x), y), z) | None -> None in
+        let entity_type id = match Hashtbl.find_opt ttab (hex_of_bytes id) with Some t -> t | None -> Z0 in
+        let s = p_schunk c in
+        (match from_save_full st_id bio_id is_air gs gb be_fields entity_type s xpos zpos bes with
+         | SOk ((((secs, hm), st)), es) ->
+             let bs = Buffer.create 4096 in
+             List.iter (function None -> add bs "N" | Some x -> s_sect bs x) secs;
+             let bh = Buffer.create 4096 in s_hm bh hm;
+             let be = Buffer.create 256 in List.iter (s_be be) es;
+             Printf.printf "fromsavee ok %d:%s hm:%s st:%s %d:%s\n" (List.length secs) (md5 bs) (md5 bh) (hex_of_bytes st)
+               (List.length es) (md5 be)
+         | SErr -> print_string "fromsavee err\n"
+         | SPanic _ -> print_string "fromsavee panic\n")
     | "setb" ->
         let runs = zlist_of_tok (next c) in
         let rec expand = function
